@@ -1316,9 +1316,13 @@ def part_leaves(ctx, W, J, t2):
     seed = ctx.seed
     stride = 2 if ctx.thorough else 4
     n_req = 0
+    t_last = [__import__('time').time()]
     for ci, (proto, validator) in enumerate(all_configs()):
         s = W.server(proto, validator)
         fam = family(proto)
+        if ctx.thorough and __import__('time').time() - t_last[0] > 60:
+            t_last[0] = __import__('time').time()
+            ctx.log('  leaves: %d requests so far, at %s / %s' % (n_req, proto, validator))
         for kid, i, lit in leaf_cases(ctx, W, N):
             k = W.K[kid]
             if (k['only'] is not None and proto not in k['only']) or validator in k['skip']:
@@ -1759,11 +1763,20 @@ def run(ctx):
     ctx.log('T2 funnel: %d cases, %d disagreements' % (len(t2.q), nd))
     ctx.cov['traces_validated_against_impl'] += len(t2.q)
     ctx.cov['c10_finding_sites'] = dict(J.sites)
-    # ---- the codec blocks
+    # ---- the codec blocks.  Their generators scale with ctx.thorough by factors that were chosen for their own properties (the
+    # thorough dict-document part alone runs for more than an hour here); inside C10 they always run at their quick scale, which is
+    # what the quick tier of C10 does, and the thorough budget of C10 goes to the parts above.
+    was_thorough = ctx.thorough
     for m in mods:
         g = getattr(m, 'part_c10', None)
         if g is not None:
-            g(ctx)
+            t_block = time.time()
+            ctx.thorough = False
+            try:
+                g(ctx)
+            finally:
+                ctx.thorough = was_thorough
+            ctx.log('%s.part_c10: %.1fs' % (m.__name__.split('.')[-1], time.time() - t_block))
     ctx.cov['rule'] = (
         '(a) leaves: for each of %d leaf kinds (9 integer kinds + customised, Boolean, Unicode + max_len / pattern, Enum, Date, Time, DateTime '
         '+ as_timezone fixed / utc, timezone=False, ge; Duration, hex / base64 / urlsafe ByteArray, Decimal + gt / digits, Double + ge, Uuid) the '
